@@ -109,6 +109,8 @@ def zernIndex(j):
     Returns:
         list: n, m values
     """
+    # a numpy integer of a narrow type would wrap around in 8*(j-1) below
+    j = int(j)
     n = int((-1.+numpy.sqrt(8*(j-1)+1))/2.)
     p = (j-(n*(n+1))/2.)
     k = n%2
